@@ -118,3 +118,70 @@ def _pruned_lemma(S):
 
 PRUNED = Lemma("loader pruning drops no selected row", _pruned_lemma,
                doc="with apply_time_range's postcondition: select(range, rows kept) = select(range, all rows)")
+
+
+# --------------------------------------------------------------------------------------
+# StorageBackend.loader: which stored chunks are read for a time range
+# --------------------------------------------------------------------------------------
+from pyvc.engine import Opq, St, V  # noqa: E402
+from pyvc.library import Abstract  # noqa: E402
+from pyvc.contract import Loop  # noqa: E402
+
+
+def _ci(S, info, key):
+    return S.to_int(S.getitem(info, key))
+
+
+def _overlaps(S, info, lo, hi):
+    """the stored chunk [start, end) overlaps the requested range [lo, hi)"""
+    return S.And(_ci(S, info, "end") > lo, _ci(S, info, "start") < hi)
+
+
+def _read_hook(eng, args, kw, st, fr, k, node):
+    """self._read_format_split_chunk(...): record (ghost) that chunk number i is read."""
+    i = eng.to_int(st.env["i"])
+    g = dict(st.ghost)
+    g["was_read"] = z3.Store(g["was_read"], i, True)
+    return k(Opq(eng.fresh("chunks_of", "V")), St(st.env, st.heap, st.pc, g))
+
+
+CHUNK_META = z3.Const("stored_chunk_meta", V)
+
+
+def _iter_chunk_meta(eng, args, kw, st, fr, k, node):
+    """strax.iter_chunk_meta(metadata): the stored chunk descriptions, in order (a named opaque sequence)"""
+    return k(Opq(CHUNK_META), st)
+
+
+def _selected(S, a, j):
+    lo, hi = a.time_range
+    return _overlaps(S, S.iter_elem(CHUNK_META, j), lo, hi)
+
+
+def _ld_inv(S, a):
+    k = a.k_
+    return [("a stored chunk has been read exactly if it overlaps the requested range",
+             S.forall(0, k, lambda j: S.Iff(z3.Select(a.ghost.was_read, j), _selected(S, a, j)))),
+            ("chunks not yet visited have not been read",
+             S.forall(k, S.iter_len(CHUNK_META), lambda j: S.Not(z3.Select(a.ghost.was_read, j))))]
+
+
+def _ld_setup(eng, st):
+    g = dict(st.ghost)
+    g["was_read"] = z3.K(z3.IntSort(), False)
+    return St(st.env, st.heap, st.pc, g)
+
+
+loader_range = REG.add(Contract(
+    FC, "StorageBackend.loader", variant="time_range=(lo,hi), all chunk numbers",
+    params=dict(self="V", backend_key="V", time_range=TupleT("int", "int"), chunk_number=lambda eng, name, st: (PNONE, st),
+                rechunk="V", source_size_mb="V", executor="V"),
+    ensures=lambda S, a, r: [
+        ("exactly the stored chunks overlapping the requested range are read (end > lo and start < hi), each once",
+         S.forall(0, S.iter_len(CHUNK_META), lambda j: S.Iff(z3.Select(a.ghost.was_read, j), _selected(S, a, j))))],
+    raises={"DataNotAvailable": lambda S, a: S.true, "ValueError": lambda S, a: S.true},
+    setup=_ld_setup, generator=True,
+    loops={1: Loop(_ld_inv)},
+    calls={"self.get_metadata": Abstract(pure=True), "version.parse": Abstract(pure=True), "literal_eval": Abstract(pure=True),
+           "strax.iter_chunk_meta": _iter_chunk_meta, "self._read_format_split_chunk": _read_hook},
+))
